@@ -27,7 +27,7 @@ impl CntCase {
             self.mem,
             if self.acgt { 1 } else { 0 },
             self.sched,
-            if self.recs.is_empty() { "-".to_string() } else { self.recs.iter().map(|r| hex(r)).collect::<Vec<_>>().join(",") }
+            if self.recs.is_empty() { "-".to_string() } else { self.recs.iter().map(|r| hexr(r)).collect::<Vec<_>>().join(",") }
         )
     }
     pub fn parse(line: &str) -> Option<CntCase> {
